@@ -130,6 +130,13 @@ def write(
                 list_rooted_nodes.append(x)
         list_unrooted_items += list_others
 
+        # refuse lists that can't be saved before any item is touched
+        unrooted_ids = [id(x) for x in list_unrooted_items if isinstance(x,Node)]
+        assert(len(set(unrooted_ids)) == len(unrooted_ids)), "The same unrooted node appears more than once in the list"
+        roots_seen = {}
+        for x in list_rooted_nodes:
+            assert(roots_seen.setdefault(x.root.name,x.root) is x.root), f"Two nodes have different roots with identical names! Try changing one of their names."
+
         # place all unrooted items into a single root
         if len(list_unrooted_items) > 0:
             root_savedlist = Root(name = "root_savedlist")
